@@ -65,6 +65,32 @@ def new_event(ev, o, gam, h=1, **extra):
         return None
 
 
+def new_group_event(ev, o, gam, h=1, seed=0):
+    """New event for the SUBCLASS GroupScores built from the same data given in a shuffled (unsorted)
+    order with arbitrary group labels (no easy samples): every inherited Scores query must behave as on
+    the plain object."""
+    from score_analysis import GroupScores
+    rnd = np.random.RandomState(seed)
+    pp, pn = rnd.permutation(len(o["pos"])), rnd.permutation(len(o["neg"]))
+    if len(pp) > 1 and list(pp) == sorted(pp):
+        pp = pp[::-1]
+    if len(pn) > 1 and list(pn) == sorted(pn):
+        pn = pn[::-1]
+    a = as_args(o)
+    a["p"], a["n"] = [o["pos"][i] for i in pp], [o["neg"][i] for i in pn]
+    e = ev("New", h=h, args=a, post=dict(EMPTY_POST), cls="GroupScores")
+    try:
+        s = GroupScores(gam.arr(a["p"]), gam.arr(a["n"]), pos_groups=[int(i) % 2 for i in pp],
+                        neg_groups=[int(i) % 3 for i in pn], score_class=o["sc"], equal_class=o["ec"])
+        vals = list(o["pos"]) + list(o["neg"]) + [0]
+        e["post"] = alpha_obj(s, inv_map(gam, min(vals) - 2, max(vals) + 3) if max(vals) > 35 or min(vals) < -35
+                              else inv_map(gam))
+        return s
+    except Exception as ex:  # noqa
+        e["exc"] = exc_str(ex)
+        return None
+
+
 def rel_scores(o, m):
     if m in ("tpr", "fnr"):
         return list(o["pos"])
